@@ -153,7 +153,7 @@ pub fn cover_cells(t: &mut Tape, cells: [bool; 6], fallible: bool) -> Vec<String
     out
 }
 
-fn trait_params(t: &mut Tape, is_enum: bool, allow: bool, lab: &mut Labels) -> Vec<TParam> {
+fn trait_params(t: &mut Tape, is_enum: bool, allow: bool, existing: bool, lab: &mut Labels) -> Vec<TParam> {
     let mut ps = vec![];
     if !allow || !t.chance(1, 4) {
         return ps;
@@ -181,7 +181,8 @@ fn trait_params(t: &mut Tape, is_enum: bool, allow: bool, lab: &mut Labels) -> V
     }
     t.shuffle(&mut ps);
     match t.below(6) {
-        0 => {
+        0 if !existing => {
+            // `..expr` is struct-update syntax: it has no documented meaning for into_existing
             ps.push(TParam::Update(t.pick(&["Default::default()", "upd()", "get_default(&@)"]).to_string()));
             lab.add("param:update");
         }
@@ -252,7 +253,7 @@ pub fn gen_counterparts(t: &mut Tape, o: &GenOpts, is_enum: bool, tuple_cp_ok: b
                 continue;
             }
             let full = t.chance(1, 3);
-            let kmax = if is_enum && !o.enum_into_existing { 4 } else { 6 };
+            let kmax = if is_enum && !(o.enum_into_existing && t.chance(1, 6)) { 4 } else { 6 };
             let mut any = false;
             for k in 0..kmax {
                 if full && k < 4 || t.chance(2, 5) {
@@ -276,7 +277,7 @@ pub fn gen_counterparts(t: &mut Tape, o: &GenOpts, is_enum: bool, tuple_cp_ok: b
             }
             let names = cover_cells(t, cells[f], f == 1);
             for name in names {
-                let params = trait_params(t, is_enum, o.allow_params, lab);
+                let params = trait_params(t, is_enum, o.allow_params, name.contains("existing"), lab);
                 let (ks, _) = trait_name_cells(&name).unwrap();
                 for p in &params {
                     for k in &ks {
@@ -360,7 +361,7 @@ fn gen_field_instrs(t: &mut Tape, o: &GenOpts, cps: &[Cp], idx: usize, s_named: 
     let mut ty = t.pick(&FIELD_TYS).to_string();
     let d_member = |t: &mut Tape| -> String {
         if s_named || needs_name {
-            if t.chance(1, 6) && !needs_name {
+            if t.chance(1, 6) && !needs_name && !in_variant {
                 format!("{}", t.below(4))
             } else {
                 D_MEMBERS[(idx + t.below(3)) % 6].to_string()
@@ -544,7 +545,8 @@ fn gen_struct(t: &mut Tape, o: &GenOpts, lab: &mut Labels) -> Item {
         for n in 1..=comps.len() {
             let pre = comps[..n].join(".");
             if !cp_entries.iter().any(|e| e.0 == pre) {
-                let hint = if t.chance(1, 5) { Some(if t.coin() { Hint::Tuple } else { Hint::Struct }) } else { None };
+                // a tuple S needs member names to fill a named intermediate struct (README "Type hints"); keep to positional there
+                let hint = if t.chance(1, 5) { Some(if t.coin() || shape != Shape::Named { Hint::Tuple } else { Hint::Struct }) } else { None };
                 cp_entries.push((pre.clone(), format!("T_{}", pre.replace('.', "_")), hint));
             }
         }
@@ -560,37 +562,61 @@ fn gen_struct(t: &mut Tape, o: &GenOpts, lab: &mut Labels) -> Item {
         }
     }
 
-    // struct-level ghosts
+    // struct-level ghosts: the entry names must fit the form of every counterpart they apply to
+    // (named member for a struct-form counterpart, trailing index for a tuple-form one)
     if t.chance(1, 3) {
-        let names: Vec<&str> = if o.bare_names_only {
-            vec!["ghosts"]
-        } else {
-            match t.below(3) {
-                0 => vec!["ghosts"],
-                1 => vec!["ghosts_owned", "ghosts_ref"],
-                _ => vec!["ghosts_owned"],
+        let form = |c: &Cp| -> Hint {
+            match c.hint {
+                Some(h) => h,
+                None => {
+                    if c.ty.starts_with('(') || shape != Shape::Named {
+                        Hint::Tuple
+                    } else {
+                        Hint::Struct
+                    }
+                }
             }
         };
-        for name in names {
-            let mut entries = vec![];
-            let n = 1 + t.below(3);
-            for i in 0..n {
-                let child_path = if !cp_entries.is_empty() && t.chance(1, 3) {
-                    lab.add("ghosts:child-path");
-                    Some(t.pick(&cp_entries).0.clone())
-                } else {
-                    None
-                };
-                let ident = if shape == Shape::Named || t.coin() { format!("g{}", i) } else { format!("{}", nfields + i) };
-                entries.push(GhostEntry { child_path, ident, action: expr(t, false, 0) });
-            }
-            lab.add("ghosts");
-            type_instrs.push(Instr::Ghosts { name: name.to_string(), ded: None, entries });
-        }
-        if t.chance(1, 3) {
-            if let Some(d) = pick_ded(t, &cps, lab) {
+        let forms: Vec<Hint> = cps.iter().map(|c| form(c)).collect();
+        let uniform = forms.iter().all(|f| *f == forms[0]) && forms[0] != Hint::Unit;
+        let (ded, f): (Option<String>, Option<Hint>) = if uniform {
+            (None, Some(forms[0]))
+        } else {
+            let cand: Vec<&Cp> = cps.iter().filter(|c| c.dedicable && form(c) != Hint::Unit).collect();
+            if cand.is_empty() {
+                (None, None)
+            } else {
+                let c = *t.pick(&cand);
                 lab.add("ghosts:dedicated");
-                type_instrs.push(Instr::Ghosts { name: "ghosts".into(), ded: Some(d), entries: vec![GhostEntry { child_path: None, ident: "gd".into(), action: expr(t, false, 0) }] });
+                (Some(c.ty.clone()), Some(form(c)))
+            }
+        };
+        if let Some(f) = f {
+            let names: Vec<&str> = if o.bare_names_only {
+                vec!["ghosts"]
+            } else {
+                match t.below(3) {
+                    0 => vec!["ghosts"],
+                    1 => vec!["ghosts_owned", "ghosts_ref"],
+                    _ => vec!["ghosts_owned"],
+                }
+            };
+            for name in names {
+                let mut entries = vec![];
+                let n = 1 + t.below(3);
+                for i in 0..n {
+                    // nested (child-path) ghosts: named S, entry not hinted as tuple
+                    let nested: Vec<&(String, String, Option<Hint>)> = cp_entries.iter().filter(|e| shape == Shape::Named && e.2 != Some(Hint::Tuple)).collect();
+                    if !nested.is_empty() && t.chance(1, 3) {
+                        lab.add("ghosts:child-path");
+                        entries.push(GhostEntry { child_path: Some(t.pick(&nested).0.clone()), ident: format!("gn{}", i), action: expr(t, false, 0) });
+                    } else {
+                        let ident = if f == Hint::Struct { format!("g{}", i) } else { format!("{}", nfields + i) };
+                        entries.push(GhostEntry { child_path: None, ident, action: expr(t, false, 0) });
+                    }
+                }
+                lab.add("ghosts");
+                type_instrs.push(Instr::Ghosts { name: name.to_string(), ded: ded.clone(), entries });
             }
         }
     }
